@@ -77,6 +77,7 @@ class Fifo:
     in_param: str  # feeder-side name of the input stream
     fcfg: CFG = None
     ocfg: CFG = None
+    elem_index: int = 0  # position of the element in the worker-function call
 
     @property
     def label(self):
@@ -258,9 +259,9 @@ def _origin_ok(cfg: CFG, d: Node, fut: str, x: str, m: Fifo, loop: Node, sink: N
         return 'not the result of a call'
     fn = dotted(v.func) or ''
     if fn == m.func_param:
-        if not v.args:
+        if len(v.args) <= m.elem_index:
             return 'worker function called without the element'
-        a0 = v.args[0]
+        a0 = v.args[m.elem_index]
         if is_name(a0, x):
             return None
         if isinstance(a0, ast.Name) and m.pre_param:
